@@ -602,9 +602,45 @@ func runC09(ctx *vh.Ctx) error {
 	kinds := []string{"react", "wfstraggler", "errpath", "errpath", "optshare", "toollist", "pregel", "dag", "workflow", "chain", "nested", "checkpoint", "host"}
 	// after the opening the two call-option families are drawn twice as often as the others
 	pool := append(append([]string{}, kinds...), "optshare", "optshare", "optshare", "toollist", "toollist", "errpath", "errpath")
-	nOpt, nTL, nErr := 0, 0, 0
+	nOpt, nTL, nErr, nCb, nFl := 0, 0, 0, 0, 0
+	// The families cbshare and inflight are dealt from a random stream of their OWN (a function of
+	// the seed only) and inserted between the cases of the main sequence, which therefore is the
+	// same sequence of cases whether or not they exist: first one cbshare case and the two big
+	// inflight cases (barrier, nested), then a cbshare case after every 7th case of the main
+	// sequence and a small inflight case after every 35th.
+	xr := vh.NewRand(ctx.Seed*0x9E3779B97F4A7C15 + 0xC09CB)
+	extra := func(kind string) error {
+		r := xr.Fork()
+		var c c09Case
+		if kind == "inflight" {
+			c = c09GenFlight(r, nFl, ctx.Thorough())
+			nFl++
+		} else {
+			c = c09GenCbShare(r, nCb)
+			nCb++
+		}
+		return c09EvaluateX(ctx, &c)
+	}
+	for _, k := range []string{"cbshare", "inflight", "inflight"} {
+		if !ctx.TimeLeft() {
+			break
+		}
+		if err := extra(k); err != nil {
+			return err
+		}
+	}
 	n := ctx.N(130, 2000)
 	for i := 0; i < n && ctx.TimeLeft(); i++ {
+		if i > 0 && i%7 == 0 {
+			if err := extra("cbshare"); err != nil {
+				return err
+			}
+		}
+		if i > 0 && i%35 == 0 {
+			if err := extra("inflight"); err != nil {
+				return err
+			}
+		}
 		kind := kinds[i%len(kinds)]
 		if i >= len(kinds) {
 			kind = pool[ctx.Rng.Intn(len(pool))]
